@@ -1,4 +1,4 @@
-import Chewing.Proofs.EditorLinkBound2
+import Chewing.Proofs.EditorLinkBound3
 /-!
 # C05, second half: "the buffer stays bounded" — in EVERY reachable state (round 2, `linkH`)
 
@@ -6,26 +6,42 @@ import Chewing.Proofs.EditorLinkBound2
 (`bounded_after_key`, `C18.buffer_bounded_along`).  This file is about all four kinds of state and all public
 operations (it cannot be a section of `Props/C05.lean`: C01's proofs import that file).
 
-**The natural statement is FALSE in the code** (`BoundedEverywhereFull`, `bounded_everywhere_full_refuted`;
-both confirmed on the real C API, 2026-09-29):
+**History.**  Before the repair `fix: the pre-edit length limit is enforced while a syllable is being entered`
+(FX3 / FX4, repository commit b92f99b) the natural statement was FALSE in the code, two ways, both confirmed on the
+real C API (2026-09-29), because `process_keyevent` / `Editor::select` ran `try_auto_commit` only `if
+self.is_entering()`:
 
-* (A) keys alone, prefix lookup (`LookupStrategy::FuzzyPartialPrefix`, what the fuzzy engine configures): in
+* (FX3) keys alone, prefix lookup (`LookupStrategy::FuzzyPartialPrefix`, what the fuzzy engine configures): in
   `EnteringSyllable` the `KeyBehavior::Fuzzy` arm inserts the pending partial syllable and answers *absorb* WITHOUT
-  leaving the state; `process_keyevent` runs `try_auto_commit` only `if self.is_entering()`, so every further
-  initial adds a symbol: 200 × `h` ⇒ `chewing_buffer_Len` 199 with limit 39 (`fuzzy_unbounded_refuted`);
-* (B) `cancel_selecting()` (`chewing_cand_close`; also the `revalidate_selecting` of an option / layout / dictionary
+  leaving the state, so every further initial added a symbol: 200 × `h` ⇒ `chewing_buffer_Len` 199 with limit 39;
+* (FX4) `cancel_selecting()` (`chewing_cand_close`; also the `revalidate_selecting` of an option / layout / dictionary
   call that empties the list) returns to `Entering` without `try_auto_commit`; with the simple engine, whose one-word
-  list opens BEFORE the auto-commit, each cycle "type a syllable, close the list" adds a symbol: 100 cycles ⇒ 100
-  symbols (`cancel_unbounded_refuted`).
+  list opens BEFORE the auto-commit, each cycle "type a syllable, close the list" added a symbol (the next key goes
+  `Entering → EnteringSyllable`, *absorb*, no auto-commit): 100 cycles ⇒ 100 symbols.
 
-**What holds** (`buffer_bounded_everywhere`, the `_partial` with exactly those two classes excluded): exact
-lookup throughout (`NoFuzzy`, `Cfg.std`), thresholds `≤ B` (initially and in every `set_editor_options`), the
+Since the repair the auto-commit runs after every key (and `select`) answered *absorb* that ends in `Entering` OR
+`EnteringSyllable`.  The old witness histories now stay within the bound (`fuzzy_history_repaired`,
+`cancel_cycle_repaired`).
+
+**What holds** (`buffer_bounded_everywhere`): EITHER lookup strategy and any layout (the hypothesis "`key_press`
+never answers `Fuzzy`" and `Cfg.std` are gone), thresholds `≤ B` (initially and in every `set_editor_options`), the
 list-closing API calls not made over the over-full one-word list (`SafeAlong`; no condition on keys, `select`,
 `start_selecting`, `commit`, `clear`, …) ⇒ in every reachable state `len ≤ B`, and `≤ B + 1` while a candidate list is
-open; the bound `B + 1` is attained (`bound_plus_one_attained`).  The limit itself may be exceeded inside the range
-`≤ B` after it was lowered by an option call — that is why the bound is the largest threshold of the history, not
-the current one.  Inside a step, where the conversion runs, at most `B + max 2 K` symbols (`K` = longest easy-symbol
-expansion of the table the editor was created with): `conversions_are_short`.
+open; the bound `B + 1` is attained (`bound_plus_one_attained`).  For key histories there is no side condition at
+all (`buffer_bounded_keys`: C05's sentence "after every key handled in editing mode the buffer is no longer than the
+configured maximum", for every layout model, engine and lookup strategy).  The limit itself may be exceeded inside
+the range `≤ B` after it was lowered by an option call — that is why the bound is the largest threshold of the
+history, not the current one.  Inside a step, where the conversion runs, at most `B + max 2 K` symbols (`K` = longest
+easy-symbol expansion of the table the editor was created with): `conversions_are_short`.
+
+**The unrestricted statement now holds** (`bounded_everywhere_full : BoundedEverywhereFull`, via
+`buffer_bounded_all_operations`): every history of valid operations with thresholds `≤ B`, no `SafeAlong` ⇒
+`len ≤ B + 1` in every reachable state, `≤ B` while a syllable is being entered.
+
+**What remains false** (`bounded_editing_full_refuted`): `len ≤ B` in `Entering` after every OPERATION — the API call
+`cancel_selecting()` (not a key) over the simple engine's over-full one-word list leaves `B + 1` symbols in
+`Entering` until the next key is handled (`cancel_leaves_one_over_refuted`); that is exactly the class `SafeAlong`
+excludes.
 -/
 namespace Chewing.C05
 open Chewing Chewing.C01 Chewing.Bound
@@ -46,13 +62,13 @@ def BoundedEverywhereFull : Prop :=
 
 /-! ## what holds -/
 
-/-- **the buffer stays bounded, everywhere**: for every environment satisfying C01's `EnvOK` whose layout
-    never answers `Fuzzy` to `key_press`, from a fresh editor (empty buffer, well-formed dictionary and symbol
-    tables) configured within `B` / `K` with exact lookup, every history of valid operations under the side
-    conditions `SafeAlong` returns (no panic), and in the state it reaches — whichever of the four kinds —
-    `len ≤ B`, `≤ B + 1` while a candidate list is open; thresholds, easy-symbol table and exact lookup are still
-    as configured.  No premise on the conversion: C01's invariant gives the tiling. -/
-theorem buffer_bounded_everywhere {B K : Nat} (hE : EnvOK env G) (hn : NoFuzzy env) (sh : Shared D L)
+/-- **the buffer stays bounded, everywhere**: for every environment satisfying C01's `EnvOK` (any layout, either
+    lookup strategy — no "never answers `Fuzzy`" hypothesis since the FX3 repair), from a fresh editor (empty
+    buffer, well-formed dictionary and symbol tables) configured within `B` / `K`, every history of valid
+    operations under the side conditions `SafeAlong` returns (no panic), and in the state it reaches — whichever
+    of the four kinds — `len ≤ B`, `≤ B + 1` while a candidate list is open; thresholds and easy-symbol table are
+    still as configured.  No premise on the conversion: C01's invariant gives the tiling. -/
+theorem buffer_bounded_everywhere {B K : Nat} (hE : EnvOK env G) (sh : Shared D L)
     (hg : G sh.dict) (hcom : sh.com = {}) (hpp : 0 < sh.options.candidatesPerPage) (hsym : SymWF sh.symSel)
     (hc : Cfg B K sh) (ops : List (Op L)) (hv : ∀ op ∈ ops, OpValid op)
     (hs : SafeAlong env B { shared := sh, state := .entering } ops) :
@@ -60,31 +76,31 @@ theorem buffer_bounded_everywhere {B K : Nat} (hE : EnvOK env G) (hn : NoFuzzy e
       Within B K e' ∧ e'.shared.com.len ≤ lenCap B e'.state ∧ e'.shared.com.len ≤ B + 1 := by
   have hw : Within B K ({ shared := sh, state := .entering } : Editor D L) :=
     ⟨hc, by show sh.com.len ≤ B; rw [hcom]; exact Nat.zero_le _⟩
-  obtain ⟨e', h, hi, hw'⟩ := within_run_linked hE hn ops _ (initial_safe sh hg hcom hpp hsym) hw hv hs
+  obtain ⟨e', h, hi, hw'⟩ := within_run_linked hE ops _ (initial_safe sh hg hcom hpp hsym) hw hv hs
   exact ⟨e', h, hi, hw', hw'.len, Nat.le_trans hw'.len (lenCap_le B _)⟩
 
 /-- … for key histories there is no side condition at all: **whatever is typed, in all four states** -/
-theorem buffer_bounded_keys {B K : Nat} (hE : EnvOK env G) (hn : NoFuzzy env) (sh : Shared D L)
+theorem buffer_bounded_keys {B K : Nat} (hE : EnvOK env G) (sh : Shared D L)
     (hg : G sh.dict) (hcom : sh.com = {}) (hpp : 0 < sh.options.candidatesPerPage) (hsym : SymWF sh.symSel)
     (hc : Cfg B K sh) (keys : List KeyEvent) :
     ∃ e', ({ shared := sh, state := .entering } : Editor D L).run env (keys.map .key) = .ok e' ∧
       e'.shared.com.len ≤ lenCap B e'.state :=
-  have ⟨e', h, _, _, hl, _⟩ := buffer_bounded_everywhere hE hn sh hg hcom hpp hsym hc (keys.map .key)
+  have ⟨e', h, _, _, hl, _⟩ := buffer_bounded_everywhere hE sh hg hcom hpp hsym hc (keys.map .key)
     (fun op hop => by obtain ⟨k, _, rfl⟩ := List.mem_map.mp hop; trivial) (safeAlong_keys env B keys _)
   ⟨e', h, hl⟩
 
 /-- the step form, from ANY state satisfying both invariants (e.g. a state reached earlier) -/
-theorem buffer_bounded_step {B K : Nat} {w : Prop} (hE : EnvOK env G) (hn : NoFuzzy env) {e : Editor D L}
+theorem buffer_bounded_step {B K : Nat} {w : Prop} (hE : EnvOK env G) {e : Editor D L}
     (hi : EditorInv env G w e) (hw : Within B K e) (op : Op L) (hv : OpValid op) (hk : w → ¬ Known env e op)
     (hs : SafeOp B e op) : ∃ e', e.apply env op = .ok e' ∧ EditorInv env G w e' ∧ Within B K e' :=
-  within_apply_linked hE hn hi hw op hv hk hs
+  within_apply_linked hE hi hw op hv hk hs
 
 /-- the C05-style form: no C01, the auto-commit's bound at the states inside the steps as a premise (it follows
     from a tiling conversion, `tryAutoCommit_bound_at`), partial correctness -/
-theorem buffer_bounded_everywhere_at {B K : Nat} (hn : NoFuzzy env) (ops : List (Op L)) (e e' : Editor D L)
+theorem buffer_bounded_everywhere_at {B K : Nat} (ops : List (Op L)) (e e' : Editor D L)
     (hw : Within B K e) (hs : SafeAlong env B e ops) (ha : ACAlong env e ops) (h : e.run env ops = .ok e') :
     Within B K e' :=
-  within_run env hn ops e e' hw hs ha h
+  within_run env ops e e' hw hs ha h
 
 theorem acBound_of_tilingAt {sh : Shared D L} (ht : TilingAt env sh) : ACBound env sh := by
   intro sh2 h2
@@ -94,23 +110,17 @@ theorem acBound_of_tilingAt {sh : Shared D L} (ht : TilingAt env sh) : ACBound e
 /-- **every conversion the editor asks for inside a step of such a history is over at most `B + max 2 K`
     symbols** (with the documented limit 39 and expansions of at most 89 characters: at most 128, the reach of
     C03's `ScoreBound`) -/
-theorem conversions_are_short {B K : Nat} (hn : NoFuzzy env) {e : Editor D L} (hw : Within B K e) {op : Op L}
+theorem conversions_are_short {B K : Nat} {e : Editor D L} (hw : Within B K e) {op : Op L}
     {sh : Shared D L} (hm : Mid env e op sh) : sh.com.inner.symbols.length ≤ B + max 2 K :=
-  mid_len_linked hn hw hm
+  mid_len_linked hw hm
 
 /-! ## non-vacuity and tightness (C01's toy environment) -/
-
-theorem toy_noFuzzy : NoFuzzy toyEnv := by
-  intro l ev s
-  simp only [toyEnv]
-  repeat' split
-  all_goals (intro h; cases h)
 
 /-- the hypotheses of `buffer_bounded_everywhere` are satisfiable: default options (limit 39), no easy symbols -/
 example (keys : List KeyEvent) : ∃ e', (stdEditor [3]).run toyEnv (keys.map .key) = .ok e' ∧
     e'.shared.com.len ≤ lenCap 39 e'.state :=
-  buffer_bounded_keys (K := 0) toyEnv_ok toy_noFuzzy _ trivial rfl (by show (0 : Nat) < 10; omega) symWF_empty
-    ⟨Nat.le_refl _, rfl, fun p hp => by cases hp⟩ keys
+  buffer_bounded_keys (K := 0) toyEnv_ok _ trivial rfl (by show (0 : Nat) < 10; omega) symWF_empty
+    ⟨Nat.le_refl _, fun p hp => by cases hp⟩ keys
 
 def simpleEditor (thr : Nat) : Editor (List Nat) Nat :=
   { shared := { syl := 0, dict := [3], options := { autoCommitThreshold := thr, conversionEngine := .simple } } }
@@ -123,14 +133,7 @@ theorem bound_plus_one_attained : ∃ e' s, (simpleEditor 0).run toyEnv [.key ke
     e'.state = .selecting s ∧ e'.shared.com.len = 1 := by
   refine ⟨_, _, rfl, rfl, ?_⟩; decide
 
-/-! ## what does not hold -/
-
-/-- **(B)** exact lookup, limit 0, simple engine: three cycles "syllable, `cancel_selecting()`" leave 3 symbols in
-    state `Entering` (each further cycle adds one; real code: 100 cycles ⇒ `chewing_buffer_Len` 100, limit 39) -/
-theorem cancel_unbounded_refuted : ∃ e', (simpleEditor 0).run toyEnv
-      [.key keyJ, .key keyX, .cancelSelecting, .key keyJ, .key keyX, .cancelSelecting, .key keyJ, .key keyX, .cancelSelecting]
-      = .ok e' ∧ e'.state = .entering ∧ e'.shared.options.autoCommitThreshold = 0 ∧ e'.shared.com.len = 3 := by
-  refine ⟨_, rfl, rfl, rfl, ?_⟩; decide
+/-! ## the two repaired classes (FX3, FX4): the old witness histories, and every other history of their kind -/
 
 /-- a layout that answers `Fuzzy(3)` to every key pressed while a syllable is pending (what the real
     `fuzzy_key_press` does when the key starts a new syllable) -/
@@ -155,28 +158,105 @@ def fuzzyStart (thr : Nat) : Shared (List Nat) Nat :=
   { syl := 0, dict := [3], engine := .fuzzy,
     options := { autoCommitThreshold := thr, lookupStrategy := .fuzzyPartialPrefix, conversionEngine := .fuzzy } }
 
-/-- **(A)** keys alone, prefix lookup, limit 0: five keys leave 4 symbols in the buffer, state `EnteringSyllable`
-    (each further key adds one; real code: 200 × `h` ⇒ `chewing_buffer_Len` 199, limit 39) -/
-theorem fuzzy_unbounded_refuted : ∃ e', ({ shared := fuzzyStart 0 } : Editor (List Nat) Nat).run fuzzyToy
+/-- **(FX3) repaired**: keys alone, prefix lookup, limit 0: the five keys that used to leave 4 symbols in the buffer
+    (state `EnteringSyllable`, each further key adding one; real code before the repair: 200 × `h` ⇒
+    `chewing_buffer_Len` 199, limit 39) now leave none — every `Fuzzy` insertion is followed by the auto-commit -/
+theorem fuzzy_history_repaired : ∃ e', ({ shared := fuzzyStart 0 } : Editor (List Nat) Nat).run fuzzyToy
       [.key keyJ, .key keyJ, .key keyJ, .key keyJ, .key keyJ] = .ok e' ∧
-    e'.state = .enteringSyllable ∧ e'.shared.options.autoCommitThreshold = 0 ∧ e'.shared.com.len = 4 := by
+    e'.state = .enteringSyllable ∧ e'.shared.options.autoCommitThreshold = 0 ∧ e'.shared.com.len = 0 := by
   refine ⟨_, rfl, rfl, rfl, ?_⟩; decide
 
-/-- **the full statement is refuted** — by keys alone -/
-theorem bounded_everywhere_full_refuted : ¬ BoundedEverywhereFull := by
+/-- … and so does EVERY key history over that layout, for every limit (`buffer_bounded_keys` applies: its hypotheses
+    are satisfiable under prefix lookup with a layout that answers `Fuzzy`) -/
+theorem fuzzy_keys_bounded (thr : Nat) (keys : List KeyEvent) :
+    ∃ e', ({ shared := fuzzyStart thr } : Editor (List Nat) Nat).run fuzzyToy (keys.map .key) = .ok e' ∧
+      e'.shared.com.len ≤ lenCap thr e'.state :=
+  buffer_bounded_keys (K := 0) fuzzyToy_ok (fuzzyStart thr) trivial rfl (by show (0 : Nat) < 10; omega) symWF_empty
+    ⟨Nat.le_refl _, fun p hp => by cases hp⟩ keys
+
+/-- **(FX4) repaired**: exact lookup, limit 0, simple engine: the three cycles "syllable, `cancel_selecting()`" that
+    used to leave 3 symbols (each further cycle adding one; real code before the repair: 100 cycles ⇒
+    `chewing_buffer_Len` 100, limit 39) now leave 1 = limit + 1: the first key of each cycle (`Entering →
+    EnteringSyllable`, *absorb*) auto-commits what the closed list left over -/
+theorem cancel_cycle_repaired : ∃ e', (simpleEditor 0).run toyEnv
+      [.key keyJ, .key keyX, .cancelSelecting, .key keyJ, .key keyX, .cancelSelecting, .key keyJ, .key keyX, .cancelSelecting]
+      = .ok e' ∧ e'.state = .entering ∧ e'.shared.options.autoCommitThreshold = 0 ∧ e'.shared.com.len = 1 := by
+  refine ⟨_, rfl, rfl, rfl, ?_⟩; decide
+
+/-- … and after the next KEY the buffer is within the limit again -/
+theorem cancel_then_key_within : ∃ e', (simpleEditor 0).run toyEnv
+      [.key keyJ, .key keyX, .cancelSelecting, .key keyJ] = .ok e' ∧ e'.state = .enteringSyllable ∧
+      e'.shared.options.autoCommitThreshold = 0 ∧ e'.shared.com.len = 0 := by
+  refine ⟨_, rfl, rfl, rfl, ?_⟩; decide
+
+/-! ## the unrestricted statement: every operation, no side condition on the API calls -/
+
+theorem thrOp_of_thrLe {B : Nat} {ops : List (Op L)} (h : ThrLe B ops) : ∀ op ∈ ops, ThrOp B op := by
+  intro op hop
+  cases op <;> first | trivial | skip
+  exact h _ hop
+
+/-- **every history of valid operations, whatever the API calls** (only: thresholds `≤ B`): the run returns and in
+    the state reached `len ≤ B + 1`, and `len ≤ B` while a syllable is being entered (`cap1`); C01's invariant and
+    the configuration are kept.  Proofs/EditorLinkBound3.lean: the invariant `Within1` needs no `SafeAlong` since
+    the repair — whatever a closed list leaves over is auto-committed by the next absorbed key -/
+theorem buffer_bounded_all_operations {B K : Nat} (hE : EnvOK env G) (sh : Shared D L)
+    (hg : G sh.dict) (hcom : sh.com = {}) (hpp : 0 < sh.options.candidatesPerPage) (hsym : SymWF sh.symSel)
+    (hc : Cfg B K sh) (ops : List (Op L)) (hv : ∀ op ∈ ops, OpValid op) (ht : ThrLe B ops) :
+    ∃ e', ({ shared := sh, state := .entering } : Editor D L).run env ops = .ok e' ∧ SafeInv env G e' ∧
+      Within1 B K e' ∧ e'.shared.com.len ≤ cap1 B e'.state ∧ e'.shared.com.len ≤ B + 1 := by
+  have hw : Within1 B K ({ shared := sh, state := .entering } : Editor D L) :=
+    ⟨hc, by show sh.com.len ≤ B + 1; rw [hcom]; exact Nat.zero_le _⟩
+  obtain ⟨e', h, hi, hw'⟩ := within1_run_linked hE ops _ (initial_safe sh hg hcom hpp hsym) hw hv (thrOp_of_thrLe ht)
+  exact ⟨e', h, hi, hw', hw'.len, Nat.le_trans hw'.len (cap1_le B _)⟩
+
+/-- the hypotheses of `buffer_bounded_all_operations` are satisfiable (simple engine, limit 0: the configuration of the
+    old FX4 witness) — EVERY history of valid operations that never raises the limit ends with at most 1 symbol -/
+example (ops : List (Op Nat)) (hv : ∀ op ∈ ops, OpValid op) (ht : ThrLe 0 ops) :
+    ∃ e', (simpleEditor 0).run toyEnv ops = .ok e' ∧ e'.shared.com.len ≤ 0 + 1 :=
+  have ⟨e', h, _, _, _, hl⟩ := buffer_bounded_all_operations (K := 0) toyEnv_ok (simpleEditor 0).shared trivial rfl
+    (by show (0 : Nat) < 10; omega) symWF_empty ⟨Nat.le_refl _, fun p hp => by cases hp⟩ ops hv ht
+  ⟨e', h, hl⟩
+
+/-- **the property as one would word it holds** (it was refuted before the repair, by keys alone:
+    `bounded_everywhere_full_refuted` of round 2, now `fuzzy_history_repaired`) -/
+theorem bounded_everywhere_full : BoundedEverywhereFull := by
+  intro D L env G hE sh hg hcom hpp hsym B hB ops hv ht e' hr
+  obtain ⟨K, hK⟩ := abbrLe_exists sh.abbr
+  obtain ⟨e2, h2, _, _, _, hl⟩ := buffer_bounded_all_operations (K := K) hE sh hg hcom hpp hsym ⟨hB, hK⟩ ops hv ht
+  rw [hr] at h2
+  injection h2 with h2
+  rw [h2]; exact hl
+
+/-! ## what still does not hold: the limit itself, between an API call and the next key -/
+
+/-- "after every OPERATION the buffer is within the bound of the state" (`B` in the editing states), no side
+    condition on the API calls -/
+def BoundedEditingFull : Prop :=
+  ∀ (D L : Type) (env : Env D L) (G : D → Prop), EnvOK env G →
+    ∀ (sh : Shared D L), G sh.dict → sh.com = {} → 0 < sh.options.candidatesPerPage → SymWF sh.symSel →
+    ∀ B, sh.options.autoCommitThreshold ≤ B →
+    ∀ ops : List (Op L), (∀ op ∈ ops, OpValid op) → ThrLe B ops →
+    ∀ e', ({ shared := sh, state := .entering } : Editor D L).run env ops = .ok e' →
+      e'.shared.com.len ≤ lenCap B e'.state
+
+/-- the API call `cancel_selecting()` over the simple engine's over-full one-word list leaves limit + 1 symbols in
+    state `Entering` (no key was handled: C05's sentence is about keys) -/
+theorem cancel_leaves_one_over_refuted : ∃ e', (simpleEditor 0).run toyEnv [.key keyJ, .key keyX, .cancelSelecting]
+      = .ok e' ∧ e'.state = .entering ∧ e'.shared.options.autoCommitThreshold = 0 ∧ e'.shared.com.len = 1 := by
+  refine ⟨_, rfl, rfl, rfl, ?_⟩; decide
+
+/-- **`BoundedEditingFull` is refuted** (by that API call; `buffer_bounded_everywhere` is the `_partial`: exactly
+    the class `SafeAlong` excluded) -/
+theorem bounded_editing_full_refuted : ¬ BoundedEditingFull := by
   intro h
-  obtain ⟨e', hr, _, _, hl⟩ := fuzzy_unbounded_refuted
-  have := h _ _ fuzzyToy (fun _ => True) fuzzyToy_ok (fuzzyStart 0) trivial rfl (by show (0 : Nat) < 10; omega) symWF_empty
+  obtain ⟨e', hr, hst, _, hl⟩ := cancel_leaves_one_over_refuted
+  have := h _ _ toyEnv (fun _ => True) toyEnv_ok (simpleEditor 0).shared trivial rfl (by show (0 : Nat) < 10; omega) symWF_empty
     0 (Nat.le_refl _) _ (fun op _ => by
       cases op <;> first | trivial | skip
       all_goals (rename_i hm; simp at hm)) (fun o ho => by simp at ho) e' hr
+  rw [hst] at this
+  simp only [lenCap] at this
   omega
-
-/-- … and, with exact lookup, by the API call `cancel_selecting` -/
-theorem bounded_everywhere_full_refuted_by_cancel : ∃ e', (simpleEditor 0).run toyEnv
-      [.key keyJ, .key keyX, .cancelSelecting, .key keyJ, .key keyX, .cancelSelecting, .key keyJ, .key keyX, .cancelSelecting]
-      = .ok e' ∧ ¬ e'.shared.com.len ≤ 0 + 1 := by
-  obtain ⟨e', h, _, _, hl⟩ := cancel_unbounded_refuted
-  exact ⟨e', h, by omega⟩
 
 end Chewing.C05
